@@ -420,4 +420,20 @@ theorem undoPayFee_lookup_idx0 (t : Tx) (s : St) (idx : Nat) :
   have := undoPayFee_lookup_idx t t.outs 0 s idx
   simpa only [Nat.zero_add] using this
 
+/-- decidable form of "no row of the table carries transaction id `i`" -/
+theorem lookup_none_of_noid (u : List (Ver × UItem)) (i : Nat) (h : ∀ p ∈ u, p.1.1 ≠ i) :
+    ∀ o, lookup u (i, o) = none := by
+  intro o
+  induction u with
+  | nil => rfl
+  | cons p r ih =>
+    obtain ⟨a, b⟩ := p
+    rw [lookup_cons]
+    have h1 : ¬ a = (i, o) := by
+      intro e2
+      have := h (a, b) List.mem_cons_self
+      exact this (by simp [e2])
+    simp only [h1, ↓reduceIte]
+    exact ih (fun p hp => h p (List.mem_cons_of_mem _ hp))
+
 end XV.Chain
